@@ -5,6 +5,7 @@
 //! compares the projected real state with the specification's state.
 pub mod account_world;
 pub mod archive_world;
+pub mod codec_world;
 pub mod crash_world;
 pub mod crypto_world;
 pub mod eventlog_world;
@@ -15,6 +16,7 @@ pub mod summary;
 pub mod sync_world;
 pub mod term;
 pub mod tree_world;
+pub mod upload_world;
 pub mod values;
 
 /// Short stable hash of a string (keys of distinct cases).
